@@ -199,6 +199,128 @@ def convex_variant(rng, case, res):
     return c
 
 
+# --------------------------------------------------------------------------- deep-merge families (screened in volume)
+
+def lattice_tree(rng):
+    """a tree-like component grown on a lattice of spacing < linklength (only axis neighbours link), winding through many
+    chunks of the enforced minimum size 4*linklength: the same component enters many cells as separate fragments, so the
+    mapGroups chains get deep (merges of already-merged roots, labels two or more levels below their root)"""
+    ll = rng.choice([0.25, 0.25, 0.1, 0.5])
+    cs = 4 * ll
+    s = ll * rng.uniform(0.75, 0.95)
+    occ = {(0, 0)}
+    order = [(0, 0)]
+    npts = rng.randint(25, 46)
+    tries = 0
+    tipbias = rng.choice([0.0, 0.5, 0.8, 0.95])
+    while len(order) < npts and tries < 5000:
+        tries += 1
+        base = order[-1] if rng.random() < tipbias else rng.choice(order)
+        d = rng.choice([(0, 1), (1, 0), (0, -1), (-1, 0)])
+        t = (base[0] + d[0], base[1] + d[1])
+        if t in occ:
+            continue
+        if sum(((t[0] + e[0], t[1] + e[1]) in occ) for e in [(0, 1), (1, 0), (0, -1), (-1, 0)]) != 1:
+            continue
+        occ.add(t)
+        order.append(t)
+    ra0 = rng.uniform(20, 340)
+    dec0 = rng.uniform(-30, 30)
+    ox, oy = rng.uniform(0, cs), rng.uniform(0, cs)
+    c = math.cos(dec0 * D2R)
+    ra = [ra0 + (p[0] * s + ox) / c for p in order]
+    dec = [dec0 + p[1] * s + oy for p in order]
+    idx = list(range(len(ra)))
+    if rng.random() < 0.6:
+        rng.shuffle(idx)
+    return {'fam': 'lattice-tree', 'ra': [G.norm_ra(ra[i]) for i in idx], 'dec': [dec[i] for i in idx], 'linklength': ll,
+            'chunksize': rng.choice([cs, cs, None])}
+
+
+def synthetic_case(rng, nmax=14):
+    """arbitrary link (a forest plus a few extra edges, symmetric, reflexive) and arbitrary overlapping cell lists that
+    satisfy pair_coverage (every edge inside some cell, every point in some cell), cells in random order"""
+    n = rng.randint(4, nmax)
+    adj = [1 << i for i in range(n)]
+    edges = []
+    for v in range(1, n):
+        if rng.random() < 0.85:
+            edges.append((rng.randrange(v), v))
+    for _ in range(rng.randint(0, 2)):
+        u, v = rng.sample(range(n), 2)
+        edges.append((u, v))
+    perm = list(range(n))
+    rng.shuffle(perm)
+    edges = [(perm[u], perm[v]) for u, v in edges]
+    for u, v in edges:
+        adj[u] |= 1 << v
+        adj[v] |= 1 << u
+    cells = []
+    for u, v in edges:
+        c = {u, v}
+        for _ in range(rng.choice([0, 0, 0, 1, 2])):
+            c.add(rng.randrange(n))
+        c = list(c)
+        rng.shuffle(c)
+        cells.append(c)
+    for v in range(n):
+        if not any(v in c for c in cells):
+            cells.append([v])
+    rng.shuffle(cells)
+    return {'fam': 'synthetic', 'n': n, 'adj': [str(x) for x in adj], 'cells': cells}
+
+
+def exhaustive_edge_orders(rng, n):
+    """bounded-exhaustive: a random tree on n points, one 2-point cell per edge, ALL (n-1)! processing orders"""
+    import itertools
+    perm = list(range(n))
+    rng.shuffle(perm)
+    edges = [(perm[rng.randrange(v)], perm[v]) for v in range(1, n)]
+    adj = [1 << i for i in range(n)]
+    for u, v in edges:
+        adj[u] |= 1 << v
+        adj[v] |= 1 << u
+    out = []
+    for order in itertools.permutations(range(len(edges))):
+        out.append({'fam': 'synthetic-exhaustive', 'n': n, 'adj': [str(x) for x in adj],
+                    'cells': [list(edges[k]) if (k + order[0]) % 2 else list(edges[k])[::-1] for k in order]})
+    return out
+
+
+def synthetic_covered(c):
+    adj = [int(x) for x in c['adj']]
+    n = c['n']
+    for i in range(n):
+        for j in range(n):
+            if (adj[i] >> j) & 1 and not any(i in cl and j in cl for cl in c['cells']):
+                return False
+    return all(len(cl) == len(set(cl)) for cl in c['cells'])
+
+
+def screen_batch(cases, timeout=170):
+    """uncertified screening in the implementation process: indices of cases whose ingroup differs from a brute-force labelling"""
+    nb = min(C.NPROC, max(1, len(cases)))
+    batches = [cases[i::nb] for i in range(nb)]
+    outs = C.run_impl_parallel('c05_impl.py', [{'mode': 'screen', 'cases': b} for b in batches], timeout=timeout)
+    sus = []
+    for bi, o in enumerate(outs):
+        sus += [bi + k * nb for k in o['suspicious']]
+    return sorted(sus)
+
+
+def run_synthetic(cases):
+    if not cases:
+        return []
+    nb = min(C.NPROC, len(cases))
+    batches = [cases[i::nb] for i in range(nb)]
+    outs = C.run_impl_parallel('c05_impl.py', [{'mode': 'synthetic', 'cases': b} for b in batches], timeout=150)
+    results = [None] * len(cases)
+    for bi, o in enumerate(outs):
+        for k, r in enumerate(o['results']):
+            results[bi + k * nb] = r
+    return results
+
+
 FAMILIES = ['chain-ra', 'chain-dec', 'chain-diag', 'seam', 'pole', 'joined', 'clusters', 'highdec', 'polebound']
 
 HEADER = '''From Coq Require Import ZArith List. Import ListNotations.
@@ -271,6 +393,8 @@ def reorder(rng, c):
 
 
 def chunk_class(c):
+    if 'cells' in c:
+        return 'synthetic-cells'
     cs = c['chunksize']
     if cs is None:
         return 'chunksize=default'
@@ -302,13 +426,41 @@ def correspond(ctx, proof_ok=True):
         cases.append(c)
         cases.append(reorder(rng, c))
         cases.append(reorder(rng, c))
+    # deep-merge families: screened in volume by an uncertified comparison inside the implementation process; every
+    # suspicious case and a fixed-size sample go through the full recorded run and the Coq evaluation below
+    sky = [lattice_tree(rng) for _ in range(ctx.n(24000, 240000))]
+    sky_sus = screen_batch(sky)
+    pick = sky_sus[:12] + list(range(0, len(sky), max(1, len(sky) // ctx.n(24, 200))))
+    cases += [sky[k] for k in sorted(set(pick))]
+    syn = [synthetic_case(rng) for _ in range(ctx.n(20000, 200000))]
+    for nn in (4, 5, 6):
+        syn += exhaustive_edge_orders(rng, nn)
+    syn = [c for c in syn if synthetic_covered(c)]
+    syn_sus = screen_batch(syn)
+    pick = syn_sus[:12] + list(range(0, len(syn), max(1, len(syn) // ctx.n(40, 400))))
+    syn_cases = [syn[k] for k in sorted(set(pick))]
+    ctx.coverage['screened'] = {
+        'rule': 'screening = real spheregroup call compared (uncertified, in the implementation process) with a brute-force labelling; '
+                'suspicious cases and a sample are then evaluated like every other case (recorded internals, Coq)',
+        'lattice_tree_cases': len(sky), 'lattice_tree_suspicious': len(sky_sus),
+        'synthetic_cell_cases': len(syn), 'synthetic_suspicious': len(syn_sus),
+        'synthetic_exhaustive_edge_orders': sum(1 for c in syn if c['fam'] == 'synthetic-exhaustive')}
     results, _ = run_batch(cases)
+    cases += syn_cases
+    results += run_synthetic(syn_cases)
     terms, idx = [], []
     dist = {}
     skipped = 0
     for n, (c, r) in enumerate(zip(cases, results)):
         key = '%s:%s:%s' % (c['fam'], chunk_class(c), 'ok' if 'ok' in r else r.get('err'))
         dist[key] = dist.get(key, 0) + 1
+        if 'ok' not in r and 'cells' in c:
+            ctx.violation('C05:synthetic-cells:raise:%s' % r.get('err'),
+                          'the real groups/friendsoffriends/spheregroup-tail code, driven with synthetic cell lists satisfying pair_coverage, '
+                          'raised %s (%s)' % (r.get('err'), r.get('msg', '')[:80]),
+                          {'kind': 'broken-correspondence', 'item': 'chunks.friendsoffriends + groups + spheregroup tail vs C05_spheregroup_spec (synthetic cells)',
+                           'synthetic_call': c, 'impl_result': {k: v for k, v in r.items() if k not in ('adj', 'rec')}}, False)
+            continue
         if 'ok' not in r:
             msg = r.get('msg', '')
             cls = 'cosDecMin' if 'cosDecMin' in msg else (msg.split(' ')[0][:24] if msg else '')
@@ -354,15 +506,30 @@ def correspond(ctx, proof_ok=True):
         'cases_with_a_group_spanning_several_cells': cross,
         'cases_with_asymmetric_or_irreflexive_adjacency': asym,   # hypotheses of C05_spheregroup_spec on the float link
         'skipped_near_threshold': skipped,
-        'samples': [dict(cases[n], impl=results[n]['ok']) for n in idx[:3]],
+        'samples': [dict(cases[n], impl=results[n]['ok']) for n in idx[:3]] + [dict(cases[n], impl=results[n]['ok']) for n in idx[-1:]],
     })
     seen = set()
     for n, v in zip(idx, verdicts):
         if v == 0:
             continue
         c, r = cases[n], results[n]
-        nn = len(c['ra'])
+        nn = c['n'] if 'cells' in c else len(c['ra'])
         want = py_components([int(x) for x in r['adj']], nn)
+        if 'cells' in c:
+            # synthetic cell lists: not an input of spheregroup(); a disagreement refutes the tie between the code after
+            # chunk.assign and the model of theorem C05_spheregroup_spec (whose hypothesis pair_coverage holds by construction)
+            sig = 'C05:synthetic-cells:%s' % ('output' if v & 2 else 'model-mismatch')
+            if sig in seen:
+                continue
+            seen.add(sig)
+            ctx.violation(sig, 'the real groups/friendsoffriends/spheregroup-tail code, driven with synthetic cell lists satisfying pair_coverage, '
+                               '%s (%d points, %d cells)' % ('does not return (components, lists_of)' if v & 2 else
+                                                             'is not reproduced by the Coq algorithmic models', nn, len(c['cells'])),
+                          {'kind': 'broken-correspondence', 'item': 'chunks.friendsoffriends + groups + spheregroup tail vs C05_spheregroup_spec (synthetic cells)',
+                           'synthetic_call': c, 'impl_result': r['ok'], 'expected_ingroup_uncertified': want, 'verdict': v,
+                           'how': 'harness/impl/c05_impl.py synthetic(): point i at RA=i deg, groups.sphereradec replaced by a stub reading the '
+                                  'adjacency rows, chunks.assign replaced by one installing the cell lists; everything else is the real code'}, False)
+            continue
         if v & 2:
             got = r['ok'][0]
             same_partition = len(set(zip(want, got))) == len(set(want)) == len(set(got))
@@ -389,6 +556,17 @@ def correspond(ctx, proof_ok=True):
 
 def replay(ctx, rep):
     c = rep.get('call')
+    sc = rep.get('synthetic_call')
+    if sc:
+        out = C.run_impl('c05_impl.py', {'mode': 'synthetic', 'cases': [sc]})['results'][0]
+        print('synthetic cells:', sc['cells'])
+        print('adjacency rows :', sc['adj'])
+        print('impl           :', out.get('ok', out.get('err')))
+        print('expected ingroup (uncertified):', py_components([int(x) for x in sc['adj']], sc['n']))
+        if 'ok' in out:
+            cc = C.CoqCases(ctx.work, HEADER, 'run_cases2', shard=1)
+            print('coq verdict (0 ok, +1 a model differs, +2 output is not (components, lists_of)):', cc.run([case_term(sc, out)]))
+        return 0
     if not c:
         print('replay file has no call (kind=%s, item=%s)' % (rep.get('kind'), rep.get('item')))
         return 2
